@@ -91,7 +91,10 @@ def spec_check(m, res, wlog):
     addr, L, base = m["addr"], m["length"], m["base"]
     off = addr - base
 
-    def go(i, mem, armed, wi):
+    def go(i, mem, armed, wi, lost=0, unsure=None):
+        """unsure: the node whose own write lost its acknowledge - the host was told the write failed, so what that
+        node itself reads back until the next successful write (its cache may still hold the word from before) is
+        left open; what every OTHER operation sees and writes is not"""
         if i == len(m["ops"]):
             if wi != len(wlog):
                 return "device writes beyond the required ones (field bits only)"
@@ -100,19 +103,41 @@ def spec_check(m, res, wlog):
         if op[0] == "rej":
             if res[i] != [0]:
                 return "harness: rej"
-            return go(i + 1, mem, armed + 1, wi)
+            return go(i + 1, mem, armed + 1, wi, lost, unsure)
+        if op[0] == "lost":
+            if res[i] != [0]:
+                return "harness: lost"
+            return go(i + 1, mem, armed, wi, lost + 1, unsure)
+        if lost > 0 and res[i] == [1, 30] and op[0] in ("v", "s"):
+            # an access whose acknowledge was lost: the operation fails; if the lost access was the operation's write
+            # the DEVICE HOLDS THE NEW WORD (field bits only, of the register as it held it) - every later operation
+            # must see the register as the device holds it now
+            st = spec_step(m, mem, op)
+            if st is not None:
+                e, img = st
+                if e != [1, 33]:
+                    r = go(i + 1, mem, armed, wi, lost - 1, unsure)           # the read was the lost access
+                    if not isinstance(r, str):
+                        return r
+                    if img is not None and wi < len(wlog) and wlog[wi] == (addr, img):
+                        mem2 = list(mem)
+                        mem2[off:off + L] = img
+                        return go(i + 1, mem2, armed, wi + 1, lost - 1, op[1])
+                    return r
         st = spec_step(m, mem, op)
         if st is None:
             return ("skip", None)
         e, img = st
         if res[i] == [1, 30] and armed > 0 and op[0] in ("v", "s") and e != [1, 33]:
             # the rejected access: nothing reaches the device, or the one write that would have was refused
-            r = go(i + 1, mem, armed - 1, wi)
+            r = go(i + 1, mem, armed - 1, wi, lost, unsure)
             if not isinstance(r, str):
                 return r
             if img is not None and wi < len(wlog) and wlog[wi] == (addr, img):
-                return go(i + 1, mem, armed - 1, wi + 1)
+                return go(i + 1, mem, armed - 1, wi + 1, lost, unsure)
             return r
+        if op[0] == "v" and unsure == op[1] and res[i][:1] == [0]:
+            return go(i + 1, mem, armed, wi, lost, unsure)
         if res[i] != e:
             return "op %d %r: result %r, the property requires %r" % (i, op, res[i][:4], e[:4])
         if img is not None:
@@ -121,7 +146,8 @@ def spec_check(m, res, wlog):
             mem = list(mem)
             mem[off:off + L] = img
             wi += 1
-        return go(i + 1, mem, armed, wi)
+            unsure = None
+        return go(i + 1, mem, armed, wi, lost, unsure)
 
     return go(0, list(m["image"]), 0, 0)
 
@@ -292,6 +318,19 @@ def gen_cases(ck):
         c = reg_case(base + 4, L, en, base, image, mixed, rops, flags=0, sibling_invalidators=True)
         c.kind = "reg-cached"
         cases.append(c)
+        # acknowledges that get LOST: the device performs the access (a write takes effect) but the host is told it
+        # failed; the siblings (mutual invalidators) must still see the register as the device holds it afterwards
+        lops = []
+        for o in ops:
+            if o[0] == "s" and rng.chance(1, 3):
+                lops.append(("v", rng.below(len(fields))))      # a sibling's view of the register is cached
+                lops.append(("lost", rng.choice([0, 1, 1])))
+            lops.append(o)
+        for cach, nds in (("WriteThrough", nodes), ("WriteAround", nodes), (None, mixed)):
+            c = (reg_case(base + 4, L, en, base, image, nds, lops, flags=0, cachable=cach, sibling_invalidators=True)
+                 if cach else reg_case(base + 4, L, en, base, image, nds, lops, flags=0, sibling_invalidators=True))
+            c.kind = "reg-cached"
+            cases.append(c)
     # the pure BitMask arithmetic of the model vs itself is covered by theorems; sample it through the nodes only
     return cases
 
